@@ -247,11 +247,8 @@ class Ctx:
         self.pc: list = []
         self.todo = todo
         self.stats = stats
-        self.solver = z3.Solver()
-        self.solver.set("timeout", timeout_ms)
+        self.timeout_ms = timeout_ms
         self.base = list(base)
-        for b in self.base:
-            self.solver.add(b)
         self.cache: dict = {}
         self.model = None
         self.axioms: list = []
@@ -259,35 +256,32 @@ class Ctx:
         self.notes: list = []
 
     # ---- solver access
-    def _check(self, *assumps):
+    def _check(self, cond):
+        """Is `cond` satisfiable together with the path condition?  Decided on the cone of
+        influence of `cond` only: the remaining conjuncts share no symbol with it and are
+        satisfiable by the invariant that the path condition is, so the answer is exact."""
+        from .solve import cone_of_influence  # local import (cycle)
         t = time.time()
-        r = self.solver.check(*assumps)
+        cone = cone_of_influence(self.base + self.pc + self.axioms, cond)
+        s = z3.Solver()
+        s.set("timeout", self.timeout_ms)
+        for c in cone:
+            s.add(c)
+        s.add(cond)
+        r = s.check()
         self.stats.solver_time += time.time() - t
         self.stats.feas_queries += 1
         return r
 
     def _model_says(self, cond):
-        if self.model is None:
-            return None
-        try:
-            v = self.model.eval(cond, model_completion=True)
-        except z3.Z3Exception:
-            return None
-        if z3.is_true(v):
-            return True
-        if z3.is_false(v):
-            return False
         return None
 
     def add(self, lit):
         self.pc.append(lit)
-        self.solver.add(lit)
 
     def axiom(self, lit):
         """A definitional fact (e.g. y*y == x for y = sqrt(x)); part of the PC."""
         self.axioms.append(lit)
-        self.solver.add(lit)
-        self.model = None
 
     def fresh(self, name, sort="real"):
         self.nfresh += 1
@@ -328,7 +322,6 @@ class Ctx:
                 if r == z3.unknown:
                     self.stats.unknown_feas += 1
                 elif r == z3.sat and ms is None:
-                    self.model = self.solver.model()
                     ms = True
             if f_feas is None:
                 if not t_feas:
@@ -339,7 +332,6 @@ class Ctx:
                     if r == z3.unknown:
                         self.stats.unknown_feas += 1
                     elif r == z3.sat and ms is None:
-                        self.model = self.solver.model()
                         ms = False
             if t_feas and f_feas:
                 # follow the side the cached model satisfies (keeps the model valid)
@@ -811,8 +803,12 @@ def sqrt_sr(x: SR) -> SR:
     if x.inf:
         return SR(Fraction(0), True) if x.inf < 0 else x
     c = ctx()
+    xv = z3.simplify(zr(x.v))
+    memo = c.cache.setdefault("sqrt", {})
+    if xv.get_id() in memo:
+        return SR(memo[xv.get_id()], b_or(x.nan, xv < 0))
     y = c.fresh("sqrt")
-    xv = zr(x.v)
+    memo[xv.get_id()] = y
     c.axiom(z3.Implies(xv >= 0, z3.And(y >= 0, y * y == xv)))
     c.axiom(z3.Implies(xv < 0, y == 0))
     return SR(y, b_or(x.nan, xv < 0))
